@@ -201,7 +201,9 @@ bool guard(int n, const Ev& e, Fsm& fsm) {
     bool v;
     if ((frozen_atoms() >> n) & 1ULL) v = (c.frozen >> n) & 1ULL; else v = (c.val >> n) & 1ULL;
     tok("g" + std::to_string(n) + "=" + (v ? "1" : "0") + "/" + rt_describe(e) + owner_tag(&fsm));
-    after_callback(fsm);
+    // guards of completion rows are no script positions: how often they are consulted differs by documented design
+    // between back (after every handled event) and backmp11 (once per entry), and ordinals must mean the same everywhere
+    if (!std::is_same<Ev, msm::front::none>::value) after_callback(fsm);
     return v;
 }
 template <class Ev, class Fsm>
